@@ -391,7 +391,8 @@ func NewKeyFromPublic(pub crypto.PublicKey) (*Key, error) {
 			return nil, fmt.Errorf("unsupported curve: %v", vk.Curve)
 		}
 
-		return NewKeyEC2(alg, vk.X.Bytes(), vk.Y.Bytes(), nil)
+		size := (vk.Curve.Params().BitSize + 7) / 8
+		return NewKeyEC2(alg, ecCoordinate(vk.X, size), ecCoordinate(vk.Y, size), nil)
 	case ed25519.PublicKey:
 		return NewKeyOKP(AlgorithmEdDSA, []byte(vk), nil)
 	default:
@@ -410,12 +411,24 @@ func NewKeyFromPrivate(priv crypto.PrivateKey) (*Key, error) {
 			return nil, fmt.Errorf("unsupported curve: %v", sk.Curve)
 		}
 
-		return NewKeyEC2(alg, sk.X.Bytes(), sk.Y.Bytes(), sk.D.Bytes())
+		size := (sk.Curve.Params().BitSize + 7) / 8
+		return NewKeyEC2(alg, ecCoordinate(sk.X, size), ecCoordinate(sk.Y, size), sk.D.Bytes())
 	case ed25519.PrivateKey:
 		return NewKeyOKP(AlgorithmEdDSA, []byte(sk[32:]), []byte(sk[:32]))
 	default:
 		return nil, ErrInvalidPrivKey
 	}
+}
+
+// ecCoordinate encodes an EC2 x or y coordinate on the full field size, since
+// RFC 8152 Section 13.1.1 requires leading zero octets to be preserved (the
+// coordinate 0 would otherwise have no octets at all). A value that does not
+// fit is returned unpadded and reported by Key.validate.
+func ecCoordinate(v *big.Int, size int) []byte {
+	if v.Sign() < 0 || v.BitLen() > size*8 {
+		return v.Bytes()
+	}
+	return v.FillBytes(make([]byte, size))
 }
 
 var (
